@@ -32,6 +32,7 @@ def handle : List String → Option String
     pure ((getitem (← parseNatLists sigs) (← parseIdxVal ix) real).getD "ok")
   | ["pyg.getitem.list", sigs, ix, real] => do
     pure ((getitemList (← parseNatLists sigs) (← parseIdxVal ix) real).getD "ok")
+  | ["pyg.getattr", obj, path, pn, real] => getattrNested obj path pn real
   | ["pyg.chunks", n, size, real] => do
     pure ((chunks (← n.toInt?) (← size.toInt?) real).getD "ok")
   | ["pyg.chk", n, i, real] => do
